@@ -276,6 +276,18 @@ def cmd_check(pid, tier):
             inconclusive.append("shard %d: exit %s without a failing case" % (pr["shard"], rc))
         extra = {"shards": shards, "cases_scale": scale,
                  "rapid_passed_per_test": [passed_counts(pr["out"]) for pr in procs]}
+        # thorough tier: bounded native coverage-guided fuzzing of the same generators
+        if violation is None and not inconclusive and tier == "thorough" and meta.get("fuzz"):
+            fz = native_fuzz(pid, meta, seed)
+            extra["native_fuzz"] = {k: fz[k] for k in ("target", "seconds", "execs", "new_interesting")}
+            if fz["replay"]:
+                write_evidence(pid, tier, seed, meta, tot, time.time() - t0, 1, extra)
+                log(tail(fz["out"]))
+                log("VIOLATION property=%s replay=%s" % (pid, fz["replay"]))
+                return 1
+            if fz["rc"] != 0:
+                log(tail(fz["out"]))
+                inconclusive.append("native fuzzing exited with %s without a recorded failing case" % fz["rc"])
         if violation is not None:
             rep = violation["replay"]
             if race and not os.path.exists(rep):
@@ -317,6 +329,36 @@ def cmd_check(pid, tier):
             pass
         if rundir:
             shutil.rmtree(rundir, ignore_errors=True)
+
+
+def native_fuzz(pid, meta, seed):
+    """go test -fuzz on a scratch copy of the harness (crashers land in the copy's testdata,
+    the failing case itself is written by the target as the usual replay JSON)."""
+    target = meta["fuzz"]["target"]
+    secs = int(meta["fuzz"].get("seconds", 60))
+    work = os.path.join(BUILD, "fuzz.%d" % os.getpid())
+    shutil.rmtree(work, ignore_errors=True)
+    shutil.copytree(HARNESS, work)
+    rep = os.path.join(REPLAYS, "%s-thorough-seed%d-fuzz.json" % (pid, seed))
+    if os.path.exists(rep):
+        os.remove(rep)
+    env = goenv()
+    env.update({"VERIF_TIER": "thorough", "VERIF_REPLAY_OUT": rep, "VERIF_PROPERTY": pid, "VERIF_FINDINGS": FINDINGS})
+    cmd = ["go", "test", "./checks", "-run", "^$", "-fuzz", "^%s$" % target, "-fuzztime", "%ds" % secs]
+    res = {"target": target, "seconds": secs, "execs": 0, "new_interesting": 0, "replay": None, "rc": 0, "out": ""}
+    try:
+        p = subprocess.run(cmd, cwd=work, env=env, stdout=subprocess.PIPE, stderr=subprocess.STDOUT, text=True, timeout=secs + 600)
+        res["rc"], res["out"] = p.returncode, p.stdout
+    except subprocess.TimeoutExpired as e:
+        res["rc"], res["out"] = "timeout", (e.stdout or "")
+    finally:
+        shutil.rmtree(work, ignore_errors=True)
+    m = re.findall(r"execs: (\d+) .*?new interesting: (\d+)", res["out"])
+    if m:
+        res["execs"], res["new_interesting"] = int(m[-1][0]), int(m[-1][1])
+    if os.path.exists(rep):
+        res["replay"] = rep
+    return res
 
 
 def race_replay(pr, pid, tier, seed):
